@@ -1394,7 +1394,10 @@ func structuralFor(p *Program, id string) []sob {
 	case "C10":
 		return p.effectObligations()
 	case "C11":
-		return p.lockObligations()
+		// "every object gets the verdict a sequential run gives it" also needs the runs on a shared evaluator to
+		// be independent of each other: the lock serialises them, the state obligations keep one run from
+		// leaving anything behind for the next (other than the variables, which persist by design)
+		return append(p.lockObligations(), p.stateObligations()...)
 	case "C08":
 		// an evaluator stays usable after a failed run only if the run released its lock on every path
 		var out []sob
